@@ -186,6 +186,117 @@ def genEncHist (seed variant maxRevs : Nat) : EncScene :=
     ⟨garbage, bin == 1, mk ds (setAt autos (n - 1) (.abs (xs[t]?.getD 0))), List.range (t + 1) ++ [n - 1]⟩
   else ⟨garbage, bin == 1, mk decls autos, List.range n⟩
 
+/-! ### streams and object-stream CONTAINERS taking their /Length from another revision (`lenh`)
+
+    A history of 2-4 revisions of random layouts; every update redefines plain object 2 and adds a plain object.  One
+    revision `ci` (cross-reference stream or hybrid) writes an object stream (members 7, 8; family 1: two more
+    containers) and an ordinary stream; their /Length holders are written by revision `hi`:
+      variant % 3          0 an OLDER revision (later in cross-reference order: second pass), 1 the same revision, 2 a NEWER
+                           revision (the holders exist only there)
+      (variant / 3) % 2    number order (holder below / above its stream)
+      (variant / 6) % 4    family as in C03's `lenc`: 0 one container + one stream, 1 three containers (both number orders
+                           and a direct /Length), 2 the ordinary stream's holder is a MEMBER of another object stream,
+                           3 the container's holder is
+      (variant / 24) % 3   number of revisions - 2
+      (variant / 72) % 2   file order inside one revision (holder before / after its stream)
+      (variant / 144) % 2  1: the newest revision writes the holders AGAIN, with the same integers
+    288 combinations. -/
+
+def genLenH (seed variant : Nat) : Scene :=
+  let r := Rng.mk' (seed * 7561 + variant * 41 + 9)
+  let rel := variant % 3
+  let fwdNum := (variant / 3) % 2 == 1
+  let fam := Nat.min 2 ((variant / 6) % 4)
+  let sub := if (variant / 6) % 4 == 3 then 1 else 0
+  let n := 2 + (variant / 24) % 3
+  let after := (variant / 72) % 2 == 1
+  let rewrite := (variant / 144) % 2 == 1
+  let (garbage, r) := rndGarbage r
+  let (bin, r) := r.nat 2
+  -- which revisions
+  let (a, r) := r.nat n
+  let (b, r) := r.nat n
+  let (ci, hi) : Nat × Nat :=
+    match rel with
+    | 0 => let ci := 1 + a % (n - 1); (ci, b % ci)
+    | 1 => (a, a)
+    | _ => let ci := a % (n - 1); (ci, ci + 1 + b % (n - 1 - ci))
+  let (kinds, r) := rndKinds r n
+  let (sk, r) := r.nat 2
+  let kinds := setAt kinds ci (sk + 1)
+  let lp := lenParts r 0 fwdNum fam sub true
+  let r := lp.r
+  -- the holders are the plain integer objects that are not the target of a prescribed pair's stream ...
+  let holderNums := lp.pairs.map (·.2)
+  let isHolder (o : DObj) : Bool := holderNums.contains o.num
+  let streams := lp.objs.filter fun o => !isHolder o
+  let holders := lp.objs.filter isHolder
+  let (revs, _) := (List.range n).foldl (fun (acc : List Rev × Rng) i =>
+    let (revs, r) := acc
+    let k := kinds[i]?.getD 0
+    let (plain, r) : List DObj × Rng :=
+      if i == 0 then
+        let (p1, r) := rndValObj r 1 0
+        let (p2, r) := rndValObj r 2 0
+        ([p1, p2], r)
+      else
+        let (p2, r) := rndValObj r 2 0
+        let (pn, r) := rndValObj r (30 + i) 0
+        ([p2, pn], r)
+    let mine := (if i == ci then streams else []) ++ (if i == hi then holders else [])
+      ++ (if rewrite && i == n - 1 && i != hi then holders else [])
+    let (objs, r) := shuffleL (plain ++ mine) r
+    let objs := if ci == hi then lp.pairs.foldl (fun objs p => orderPair objs p.2 p.1 (!after)) objs else objs
+    let mems := if i == ci then lp.mems else []
+    let (lay, r) := rndLay r k (40 + i) 65535
+    let lay := if k == 2 && mems.isEmpty then { lay with up := false } else lay
+    (revs ++ [{ objs, members := mems, frees := [], zero := i == 0, root := (1, 0), lay }], r)) ([], r)
+  ⟨garbage, bin == 1, revs.map fun x => (x, .auto), some (List.range n)⟩
+
+/-! ### LONG histories (`long`)
+
+    `long <hex> <seed> <sections>`: a base revision (objects 1 = root, 2, 3) and `sections - 1` tiny incremental updates;
+    update i redefines object 2 or 3 (value i) and adds object 3 + 2 i; its cross-reference section is a classic table or a
+    cross-reference stream (object 4 + 2 i, unfiltered): seed % 4 = 0 all tables, 1 all streams, 2 alternating, 3 random.
+    Every threshold on the number of sections / revisions / distinct offsets in the cycle set is crossed by the sweep
+    of lengths in `longLengths`.  Oracle: DocSpec.resolve. -/
+
+def tinyObj (num : Nat) (v : Obj) (c : Nat) : DObj :=
+  { blankObj with num, body := .val v v, ch := [c % 2, c / 2 % 7, 0, c / 14 % 2, 0, 0, 0] }
+
+def genLong (seed len : Nat) : Scene :=
+  let r := Rng.mk' (seed * 2503 + len * 3 + 1)
+  let pat := seed % 4
+  let (bits, _) := Driver.C02.rndChoices r (len + 1)
+  let kindAt (i : Nat) : Nat :=
+    match pat with
+    | 0 => 0
+    | 1 => 1
+    | 2 => i % 2
+    | _ => (bits[i]?.getD 0) % 2
+  let layAt (i : Nat) : RevLay :=
+    { kind := kindAt i, ch := [(bits[i]?.getD 0) / 2 % 3], cut := (bits[i]?.getD 0) / 8 % 3, eols := [(bits[i]?.getD 0) / 32 % 3], w0 := 1, x1 := 0, x2 := 0,
+      omitIndex := false, flate := false, up := false, xnum := 4 + 2 * i, hiddenGen := 65535, swap := none,
+      dictOrder := (bits[i]?.getD 0) / 128 % 4 }
+  let base : Rev := { objs := [tinyObj 1 (.name (bs "Root")) 0, tinyObj 2 (.int 0) 1, tinyObj 3 (.int 0) 2],
+                      members := [], frees := [], zero := true, root := (1, 0), lay := layAt 0 }
+  let upd (i : Nat) : Rev :=
+    { objs := [tinyObj (2 + i % 2) (.int (Int.ofNat i)) (bits[i]?.getD 0), tinyObj (3 + 2 * i) (.int (Int.ofNat (1000 + i))) ((bits[i]?.getD 0) / 3)],
+      members := [], frees := [], zero := false, root := (1, 0), lay := layAt i }
+  ⟨[], false, ((base :: (List.range (len - 1)).map fun i => upd (i + 1)).map fun x => (x, PrevMode.auto)), some (List.range len)⟩
+
+def modelMax (tier : String) : Nat := if tier == "thorough" then 300 else 129
+
+/-- the model's output; `long ... o` cases are judged by the oracle alone -/
+def model (line : String) : String :=
+  match words line with
+  | ["long", _, _, _, "o"] => "nomodel"
+  | _ => Driver.C03.model line
+
+/-- chain lengths of the sweep: every length 1..40, then the neighbourhoods of the powers of two and some large ones -/
+def longLengths (tier : String) : List Nat :=
+  (List.range 40).map (· + 1) ++ [63, 64, 65, 66, 100, 128, 129, 256, 300, 1000] ++ (if tier == "thorough" then [5000] else [])
+
 def encMaxRevs (variant : Nat) : Nat := if variant ≥ 1000 then 5 else 3
 
 def maxRevsOf (variant : Nat) : Nat := if variant ≥ 1000 then 7 else 3
@@ -211,6 +322,14 @@ def judge (case impl : String) : String :=
     | ["w0", hex, seed, variant] => Driver.C03.judgeW0 seed.toNat! variant.toNat! hex impl   -- one-revision histories, see Driver/C03.lean
     | ["ench", hex, seed, variant] => judgeEnc (genEncHist seed.toNat! variant.toNat! (encMaxRevs variant.toNat!)) hex impl
     | ["enc", hex, seed, variant] => judgeEnc (genEncDoc seed.toNat! variant.toNat!) hex impl
+    | ["lenc", hex, seed, variant] => Driver.C03.judgeLen (genLenC seed.toNat! variant.toNat!) hex impl   -- one-revision histories
+    | ["lenh", hex, seed, variant] =>
+      let v := judgeLen (genLenH seed.toNat! variant.toNat!) hex impl
+      if v.startsWith "bad wrong-load" then "bad wrong-merge " ++ " ".intercalate ((v.splitOn " ").drop 2) else v
+    | "long" :: hex :: seed :: len :: _ =>
+      if impl.trimAscii.toString == "nomodel" then "skip" else      -- (the model's side of an oracle-only case)
+      let v := judgeScene (genLong seed.toNat! len.toNat!) hex impl
+      if v.startsWith "bad wrong-load" then "bad wrong-merge " ++ " ".intercalate ((v.splitOn " ").drop 2) else v
     | ["big", hex, seed, variant] =>
       let v := judgeScene (genBig seed.toNat! variant.toNat!) hex impl
       if v.startsWith "bad wrong-load" then "bad wrong-merge " ++ " ".intercalate ((v.splitOn " ").drop 2) else v
@@ -218,6 +337,12 @@ def judge (case impl : String) : String :=
 
 /-- quick: histories of up to 4 revisions; thorough: variants ≥ 1000 allow up to 8 -/
 def gen (seed n : Nat) (tier : String) (emit : String → IO Unit) : IO Unit := do
+  -- long histories: the sweep of chain lengths (the same lengths for every seed; the seed picks the section kinds)
+  for len in longLengths tier do
+    let sc := genLong seed len
+    let (bytes, _, _, _) := render sc
+    -- the byte-list model needs time quadratic in the file size: above `modelMax` sections the case is oracle-only
+    emit s!"long {hexOfBytes bytes} {seed} {len}{if len > modelMax tier then " o" else ""}"
   for k in List.range n do
     let s := seed * 100003 + k
     let v := k % 8 + (if tier == "thorough" && k % 3 == 0 then 1000 else 0)
@@ -236,6 +361,10 @@ def gen (seed n : Nat) (tier : String) (emit : String → IO Unit) : IO Unit := 
       let ev := (k / 4) % 8 + (if tier == "thorough" && k % 3 == 0 then 1000 else 0)
       let (eb, _, _, _) := renderE (genEncHist s ev (encMaxRevs ev))
       emit s!"ench {hexOfBytes eb} {s} {ev}"
+    -- /Length holders and object-stream containers in different revisions: 288 combinations per 864 indices
+    if k % 3 == 2 then
+      let (lb, _, _, _) := render (genLenH s (k / 3))
+      emit s!"lenh {hexOfBytes lb} {s} {k / 3}"
     -- one-revision histories whose cross-reference stream has no type field (/W [0 n m]), plain and hybrid
     if k % 16 == 5 then
       let (wb, _) := Driver.C03.w0Bytes s (k / 16)
@@ -245,6 +374,9 @@ def nontrivial (line : String) : Bool :=
   match words line with
   | "hist" :: hex :: _ => hex.length ≥ 1000
   | "big" :: _ => true
+  | "lenc" :: _ => true
+  | "lenh" :: _ => true
+  | "long" :: _ => true
   | "ench" :: _ => true
   | "enc" :: _ => true
   | "decl" :: _ => true
@@ -253,5 +385,5 @@ def nontrivial (line : String) : Bool :=
   | "mut" :: hex :: _ => hex.length ≥ 400
   | _ => false
 
-def driver : PropDriver := { gen, model := Driver.C03.model, judge, nontrivial }
+def driver : PropDriver := { gen, model, judge, nontrivial }
 end Driver.C04
